@@ -4,10 +4,12 @@
 //! c17_xen.rs (hook H3) over a memfd.
 //! case:  mode size hasfile filelen start hasprot prot hasflags flags addr mflags mdata hasbase base page ioctl
 //! obs:   probe res size prot flags hasfile start samefd xflags xdata ptrnull pos d1 d2 [ev*] live
+//! Suite C15xm (w9): the same requests, observing WHAT WAS MAPPED - the permission column of /proc/self/maps at
+//! as_ptr(), coherence with the file for Xen-UNIX file ranges, and the whole privcmd request of a foreign range.
 //! Suite C15xenfind (NOT part of ./check C15) holds the candidate finding "a failed mmap after an
 //! accepted map ioctl leaves the grant mapping in the device".
 use super::c15::{mapped_bytes, maps_perms, memfd};
-use super::c17_xen::{dev_install, dev_live, dev_reset, dev_take, DevEv};
+use super::c17_xen::{dev_install, dev_live, dev_reset, dev_take, dev_take_foreign, DevEv};
 use crate::tok::n;
 use crate::{util, Rng, Suite, Tier, Tok};
 use std::fs::File;
@@ -22,6 +24,7 @@ pub const SUITES: &[Suite] = &[
     Suite { name: "C15xen", gen, exec },
     Suite { name: "C15xenfind", gen: gen_find, exec },
     Suite { name: "C15xu", gen: gen_u, exec: exec_u },
+    Suite { name: "C15xm", gen: gen_m, exec: exec_m },
 ];
 
 fn code(e: &MmapRegionError) -> u64 {
@@ -538,5 +541,228 @@ fn gen_u(rng: &mut Rng, tier: Tier, emit: &mut dyn FnMut(Vec<Tok>)) {
             None
         };
         case(route, size, file, base, rng.below(3));
+    }
+}
+
+// ------------------------------------------------------------------------------------------------
+// C15xm (w9): the requests of C15xen (explicit prot / flags x file x mapping type), observing what the kernel was
+// asked to map and what the hypervisor interface was asked for.
+// case:  mode size hasfile filelen start hasprot prot hasflags flags addr mflags mdata hasbase base page ioctl
+// obs:   probe res prot flags ptrnull mprot coh1 coh2 [fev]
+//   mprot: permission column of /proc/self/maps at as_ptr() (r 1, w 2, x 4, shared 8; 16 = null pointer / no line);
+//   coh1 / coh2 (Xen-UNIX file ranges, rw, 0 < size <= 1 MiB): pwrite -> region / region -> pread (1 equal, 0 different,
+//   2 not examined);  fev: [] or the ONE privcmd batch request: [dom, addr_ok, num, frame*] - addr_ok 1 the request
+//   names the address of the region that was built, 0 another address, 2 no region to compare with.
+fn exec_m(case: &[Tok]) -> Vec<Tok> {
+    assert!(case.len() == 16);
+    let size = case[1].u() as usize;
+    let (hasfile, flen, start) = (case[2].u() != 0, case[3].u(), case[4].u());
+    let (hasprot, prot) = (case[5].u() != 0, case[6].u() as u32 as i32);
+    let (hasflags, flags) = (case[7].u() != 0, case[8].u() as u32 as i32);
+    let (addr, mflags, mdata) = (case[9].u(), case[10].u() as u32, case[11].u() as u32);
+    let (hasbase, base) = (case[12].u() != 0, case[13].u());
+    let page = unsafe { libc::sysconf(libc::_SC_PAGESIZE) } as u64;
+    assert!(case[14].u() == page);
+    let ioctl_ok = case[15].u() != 0;
+    assert!(size as u64 <= (1 << 20));
+
+    dev_install();
+    dev_reset(!ioctl_ok);
+    let fd = if hasfile { Some(memfd(flen).expect("file length refused")) } else { None };
+    // independent probe of the mmap the back end will issue (as in C15xen)
+    let eprot = if hasprot { prot } else { libc::PROT_READ | libc::PROT_WRITE };
+    let eflags = if hasflags { flags } else { libc::MAP_NORESERVE | libc::MAP_SHARED };
+    let rounded = (size as u64).div_ceil(page).wrapping_mul(page) as usize;
+    let try_map = |len: usize, fl: i32, fd: i32, off: u64| -> u64 {
+        let p = unsafe { libc::mmap(std::ptr::null_mut(), len, eprot, fl, fd, off as libc::off_t) };
+        if p == libc::MAP_FAILED {
+            0
+        } else {
+            unsafe { libc::munmap(p, len) };
+            1
+        }
+    };
+    let probe: u64 = if eflags & libc::MAP_FIXED != 0 {
+        2
+    } else if mflags & 1 != 0 {
+        fd.map_or(2, |fd| try_map(rounded, eflags | libc::MAP_SHARED, fd, 0))
+    } else if mflags & 2 != 0 {
+        if mflags & 8 != 0 {
+            2
+        } else {
+            let gref = ((addr & !(1u64 << 63)) / page) as u32 as u64;
+            fd.map_or(2, |fd| try_map(rounded, eflags, fd, gref * page))
+        }
+    } else {
+        try_map(size, eflags, fd.unwrap_or(-1), if hasfile { start } else { 0 })
+    };
+
+    let fo = fd.map(|fd| {
+        let d = unsafe { libc::dup(fd) };
+        assert!(d >= 0);
+        FileOffset::new(unsafe { File::from_raw_fd(d) }, start)
+    });
+    let built: Option<Result<Built, u64>> = util::catch(|| {
+        let mut range = MmapRange::new(size, fo.clone(), GuestAddress(addr), mflags, mdata);
+        if hasprot {
+            range.set_prot(prot);
+        }
+        if hasflags {
+            range.set_flags(flags);
+        }
+        match MmapRegion::<()>::from_range(range) {
+            Err(e) => Err(code(&e)),
+            Ok(r) => {
+                if hasbase {
+                    match GuestRegionMmap::new(r, GuestAddress(base)) {
+                        Ok(g) => Ok(Built::Guest(g)),
+                        Err(vm_memory::mmap::Error::InvalidGuestRegion) => Err(6),
+                        Err(_) => Err(14),
+                    }
+                } else {
+                    Ok(Built::Plain(r))
+                }
+            }
+        }
+    });
+    drop(fo);
+    let reqs = dev_take_foreign();
+    let mut out: Vec<Tok> = vec![n(probe)];
+    let mut region_ptr: Option<u64> = None;
+    match &built {
+        None => out.extend([99u64, 0, 0, 0, 0, 2, 2].iter().map(|x| n(*x))),
+        Some(Err(c)) => out.extend([*c, 0, 0, 0, 0, 2, 2].iter().map(|x| n(*x))),
+        Some(Ok(b)) => {
+            let r: &MmapRegion<()> = match b {
+                Built::Guest(g) => g,
+                Built::Plain(r) => r,
+            };
+            let ptr = r.as_ptr();
+            region_ptr = Some(ptr as u64);
+            let mprot = if ptr.is_null() { 16 } else { maps_perms(ptr as u64) };
+            let (mut coh1, mut coh2) = (2u64, 2u64);
+            // a Xen-UNIX range with a file: byte i of the region against byte start+i of the file, both directions
+            // (examined whatever the region says about itself)
+            if mflags == 0 && hasfile && r.size() > 0 && r.size() <= (1 << 20) && !ptr.is_null() && (mprot & 3) == 3 {
+                let sz = r.size();
+                let fd = fd.unwrap();
+                let mut rng = Rng::new(size as u64 ^ start ^ 0xC15A);
+                let pat: Vec<u8> = rng.bytes(sz).iter().map(|b| b | 1).collect();
+                let w = unsafe { libc::pwrite(fd, pat.as_ptr() as *const libc::c_void, sz, start as libc::off_t) };
+                assert!(w == sz as isize);
+                let raw: Vec<u8> = (0..sz).map(|i| unsafe { std::ptr::read_volatile(ptr.add(i)) }).collect();
+                coh1 = (raw == pat) as u64;
+                let pat2: Vec<u8> = pat.iter().map(|b| !b).collect();
+                for i in 0..sz {
+                    unsafe { std::ptr::write_volatile(ptr.add(i), pat2[i]) };
+                }
+                let mut back = vec![0u8; sz];
+                let rd = unsafe { libc::pread(fd, back.as_mut_ptr() as *mut libc::c_void, sz, start as libc::off_t) };
+                coh2 = (rd == sz as isize && back == pat2) as u64;
+            }
+            out.extend(
+                [0, r.prot() as u32 as u64, r.flags() as u32 as u64, ptr.is_null() as u64, mprot, coh1, coh2]
+                    .iter()
+                    .map(|x| n(*x)),
+            );
+        }
+    }
+    let mut fev: Vec<u128> = Vec::new();
+    assert!(reqs.len() <= 1, "more than one privcmd request for one range");
+    for q in &reqs {
+        let aok = match region_ptr {
+            Some(p) => (p == q.addr) as u128,
+            None => 2,
+        };
+        fev.extend([q.dom as u128, aok, q.frames.len() as u128]);
+        fev.extend(q.frames.iter().map(|f| *f as u128));
+    }
+    out.push(Tok::L(fev));
+    drop(built);
+    dev_take();
+    if let Some(fd) = fd {
+        unsafe { libc::close(fd) };
+    }
+    out
+}
+
+fn gen_m(rng: &mut Rng, tier: Tier, emit: &mut dyn FnMut(Vec<Tok>)) {
+    let mode = crate::build_mode();
+    let page = unsafe { libc::sysconf(libc::_SC_PAGESIZE) } as u64;
+    let mut case = |size: u64, file: Option<(u64, u64)>, prot: Option<i32>, flags: Option<i32>, addr: u64, mflags: u32, mdata: u32, base: Option<u64>, ioc: bool| {
+        let (hf, fl, st) = match file {
+            Some((l, s)) => (1u64, l, s),
+            None => (0, 0, 0),
+        };
+        emit(vec![
+            n(mode), n(size), n(hf), n(fl), n(st), n(prot.is_some() as u64), n(prot.unwrap_or(0) as u32),
+            n(flags.is_some() as u64), n(flags.unwrap_or(0) as u32), n(addr), n(mflags), n(mdata),
+            n(base.is_some() as u64), n(base.unwrap_or(0)), n(page), n(ioc as u64),
+        ])
+    };
+    let dev = Some((64 * page, 0u64));
+    let (sh, pr, nr) = (libc::MAP_SHARED, libc::MAP_PRIVATE, libc::MAP_NORESERVE);
+    let anon = libc::MAP_ANONYMOUS | libc::MAP_PRIVATE;
+    let prots = [None, Some(0), Some(1), Some(2), Some(3)];
+    let fl_file = [None, Some(sh), Some(pr), Some(sh | nr), Some(pr | nr)];
+    // 1. every valid mapping type x protection {default, 0, 1, 2, 3} x {default, shared, private (+ NORESERVE)} with a file
+    for &w in &[0u32, 1, 2, 0xA] {
+        for &size in &[1u64, page, 3 * page + 5] {
+            for &p in &prots {
+                for &f in &fl_file {
+                    case(size, dev, p, f, 0x10 * page, w, 7, None, true);
+                }
+            }
+        }
+    }
+    // 2. Xen-UNIX: file at a non-zero offset, range ending at EOF; anonymous (with and without a file handed in)
+    for &size in &[1u64, page - 1, page, 2 * page + 7] {
+        for &p in &prots {
+            for &f in &fl_file {
+                case(size, Some((page + size, page)), p, f, 0, 0, 0, Some(0x1000), true);
+            }
+            case(size, None, p, Some(anon), 0, 0, 0, None, true);
+            case(size, dev, p, Some(anon), 0, 0, 0, None, true);
+            case(size, None, p, Some(libc::MAP_ANONYMOUS | sh), 0, 0, 0, None, true);
+        }
+    }
+    // 3. foreign: page counts 1..9, guest addresses, domain ids (also above 16 bits), refused ioctl, refused base
+    for np in 1..=9u64 {
+        for &a in &[0u64, page, 0x10 * page, 0x12345 * page + 5, (1 << 52) - page, u64::MAX - 7 * page] {
+            for &(dom, f) in &[(0u32, None), (7, Some(sh)), (0xFFFF, Some(pr)), (0x1_0005, None)] {
+                case(np * page - (np % 3), dev, None, f, a, 1, dom, None, true);
+            }
+        }
+        case(np * page, dev, None, None, 0x40 * page, 1, 3, None, false);
+        case(np * page, dev, Some(1), None, 0x40 * page, 1, 3, Some(0u64.wrapping_sub(np * page)), true);
+    }
+    let nrand = if tier == Tier::Quick { 800 } else { 30_000 };
+    for _ in 0..nrand {
+        let w = *rng.pick(&[0u32, 0, 1, 1, 2, 0xA]);
+        let size = match rng.below(3) {
+            0 => 1 + rng.below(8 * page),
+            1 => page * (1 + rng.below(9)),
+            _ => rng.range(1, 64),
+        };
+        let file = if w == 0 {
+            match rng.below(4) {
+                0 => None,
+                1 => Some((64 * page, page * rng.below(3))),
+                _ => dev,
+            }
+        } else {
+            dev
+        };
+        // grant mapped in advance: keep to flags the kernel grants (a refused mmap after an accepted map ioctl is the
+        // candidate finding of C15xenfind)
+        let flags = if file.is_none() {
+            Some(anon)
+        } else {
+            *rng.pick(&fl_file)
+        };
+        let prot = *rng.pick(&prots);
+        let base = if rng.chance(1, 4) { Some(rng.below(1 << 40)) } else { None };
+        case(size, file, prot, flags, page * rng.below(1 << 20) + if rng.chance(1, 4) { rng.below(page) } else { 0 }, w,
+             rng.next() as u32 & 0x1FFFF, base, rng.chance(7, 8));
     }
 }
